@@ -190,6 +190,14 @@ func report(id, tier string, seed int, sc *Sidecar, ld *Loaded, sums []*harnessS
 				reproduced = rr.Outcome == "panic" || rr.Outcome == "crash"
 			case "deadlock":
 				reproduced = rr.Outcome == "timeout"
+				for try := 0; try < 4 && !reproduced; try++ {
+					// the blocking interleaving is timing-dependent natively: try again
+					res, err := rp.run(pkgOfHarness(v.Harness), []ReplayModel{{ID: 1, Harness: shortName(v.Harness), Vars: v.Inputs, Params: g.hs.Params[tier], Timeout: 4000}})
+					if err == nil {
+						rr = res[1]
+						reproduced = rr.Outcome == "timeout"
+					}
+				}
 			case "hang":
 				reproduced = rr.Outcome == "timeout" || rr.Outcome == "crash" || rr.Outcome == "panic"
 			case "race":
